@@ -324,6 +324,38 @@ func TestVerif_C30(t *testing.T) {
 			c30Reuse(r, k, m, ln)
 		}
 	}
+	// row-count ladder: blob sizes around every power of two of the row count (a row is one 16-bit
+	// word per original shard, 2k bytes), where an implementation may switch strategy (chunking,
+	// worker split, buffer growth): rows 2^j-2 .. 2^j+9, full and with a partial last row, decoded
+	// from the originals, from recovery shards only and from a reversed mixed selection
+	type ladder struct{ k, m, jmin, jmax int }
+	ladders := vlib.Pick(r, []ladder{{2, 4, 3, 13}, {342, 681, 3, 6}}, []ladder{{2, 4, 3, 16}, {3, 6, 3, 14}, {342, 681, 3, 12}})
+	for _, ld := range ladders {
+		k, m := ld.k, ld.m
+		orig, rec, mixed := make([]int, k), make([]int, k), make([]int, k)
+		for i := 0; i < k; i++ {
+			orig[i], rec[i] = i, k+i
+			if i%2 == 0 {
+				mixed[k-1-i] = i
+			} else {
+				mixed[k-1-i] = k + m - 1 - i
+			}
+		}
+		for j := ld.jmin; j <= ld.jmax; j++ {
+			for rows := 1<<uint(j) - 2; rows <= 1<<uint(j)+9; rows++ {
+				for _, ln := range []int{rows * 2 * k, rows*2*k - 1} {
+					for si, sel := range [][]int{orig, rec, mixed} {
+						idx++
+						if !r.Mine(idx) {
+							continue
+						}
+						r.Space(1)
+						c30Run(r, c30Case{K: k, M: m, Len: ln, Pattern: 0, Indices: sel, Note: fmt.Sprintf("row-ladder rows=%d sel=%d", rows, si)}, nil)
+					}
+				}
+			}
+		}
+	}
 	r.Extra("full_code_selection_sets", len(sets))
 	r.Extra("full_code_exhaustive_over_subsets", false)
 }
